@@ -42,9 +42,13 @@ impl Record {
 
     pub fn alignment_end(&self) -> Option<Position> {
         self.alignment_start.and_then(|start| {
-            // A record with no alignment span, e.g., a placed unmapped record without bases,
-            // covers its alignment start.
-            let span = self.alignment_span().max(1);
+            // A record with no alignment, i.e., a placed unmapped record or a record without
+            // bases, covers its alignment start.
+            let span = if self.bam_flags.is_unmapped() {
+                1
+            } else {
+                self.alignment_span().max(1)
+            };
             let end = usize::from(start) + span - 1;
             Position::new(end)
         })
